@@ -1159,7 +1159,15 @@ def _stdin_fix(
 
     exit_code = _handle_unparsable(fix_even_unparsable, exit_code, result, formatter)
 
-    if result.num_violations(types=SQLLintError, fixable=True) > 0:
+    # NOTE: Warnings are fixed too, exactly as when fixing a path
+    # (see `LintedFile.persist_tree`).
+    if any(
+        linted_file.num_violations(
+            types=SQLLintError, fixable=True, filter_warning=False
+        )
+        for path in result.paths
+        for linted_file in path.files
+    ):
         stdout = result.paths[0].files[0].fix_string()[0]
     else:
         stdout = stdin
